@@ -538,4 +538,29 @@ pub fn k_efi_iter_any() {
     }
     assert!(i == k);
 }
+
+// ---- C18: provided Iterator methods (nth / skip / count / last) of the EFI iterator agree with
+// repeated next(): an override added to the impl is checked against the same descriptors.
+#[kani::proof]
+#[kani::unwind(6)]
+pub fn k_efi_iter_provided_methods() {
+    let bytes = multiboot2_common::test_utils::AlignedBytes::new(kani::any::<[u8; 152]>());
+    let b = &bytes.0;
+    kani::assume(dst_le32(b, 0) == 17);
+    let size = dst_le32(b, 4) as usize;
+    kani::assume(dst_le32(b, 8) == 40 && dst_le32(b, 12) == 1);
+    kani::assume(size == 16 || size == 56 || size == 96 || size == 136);
+    let k = (size - 16) / 40;
+    let tag = dst_generic(&b[..dst_round8(size)]).cast::<EFIMemoryMapTag>();
+    let n: usize = kani::any();
+    kani::assume(n <= 4);
+    let got = tag.memory_areas().nth(n).map(|d| core::ptr::addr_of!(*d).cast::<u8>() as usize);
+    let want = if n < k { Some(b.as_ptr() as usize + 16 + n * 40) } else { None };
+    assert!(got == want);
+    assert!(tag.memory_areas().count() == k);
+    assert!(tag.memory_areas().skip(k).next().is_none());
+    assert!(tag.memory_areas().last().is_some() == (k > 0));
+    kani::cover!(k == 3 && n == 3);
+}
+
 // ---- END dst section
